@@ -69,6 +69,24 @@ Predict(kind, s) == CASE kind = "name" -> Verdict(NameDoc(s), 1, 0)
                       [] kind = "repr" -> Verdict(ReprDoc(s), 1, 0)
                       [] OTHER -> "unknown"
 
+\* ---- which classes a meta-model export shows.  A meta-model: Seq of grammar files
+\* [ns, imports (indices of the files it imports), classes (common and abstract classes)],
+\* the main grammar first.  The property: a node / a declaration for every common and abstract
+\* class of the meta-model, i.e. of every grammar file it was loaded from.
+RangeOf(q) == {q[k] : k \in DOMAIN q}
+RECURSIVE ReachFiles(_, _)
+ReachFiles(F, S) == LET T == S \cup UNION {RangeOf(F[i].imports) : i \in S}
+                    IN IF T = S THEN S ELSE ReachFiles(F, T)
+DrawnFiles(F) == IF "TransitiveImportsNotDrawn" \in Dev
+                 THEN {1} \cup RangeOf(F[1].imports)      \* the main grammar and what it imports itself
+                 ELSE ReachFiles(F, {1})
+Drawn(F) == UNION {RangeOf(F[i].classes) : i \in DrawnFiles(F)}
+\* F[i].subs: pairs <<abstract class, subclass>>.  Under the deviation the exporter looks every
+\* subclass of a shown class up among the shown classes and fails when it is not there.
+Crashes(F) == \E i \in DrawnFiles(F) : \E p \in RangeOf(F[i].subs) : p[2] \notin Drawn(F)
+\* every class is shown; nothing is lost by a deviation-free export
+AllClasses(F) == UNION {RangeOf(F[i].classes) : i \in 1..Len(F)}
+
 \* the property for one string: whatever the text, the export stays well-formed
 FieldsWellFormed(s) == /\ Predict("name", s) = "wellformed"
                        /\ Predict("value", s) = "wellformed"
